@@ -212,6 +212,68 @@ def main():
         for l, a, b1, b0 in zip(sl, real, m1, m0):
             ck.evaluated(); ck.count("tie_stralloc")
             if a != b1 and a != b0: mism.append(dict(stream="stralloc growth", input=l, real=a, model="%s (allocation succeeds) / %s (fails)" % (b1, b0)))
+    # dns.c: the record walk (Mem/DnsParse.v) against dns_ip / dns_ptr / dns_mxip on scripted responses whose names are
+    # uncompressed labels or one backward pointer (the shape the model's dn_expand stand-in covers); counts, types,
+    # lengths and truncation points are arbitrary
+    def gen_response():
+        def name():
+            k_ = rng.random()
+            if k_ < 0.3: return b"\x00"
+            if k_ < 0.6: return b"".join(bytes([len(l_)]) + l_ for l_ in [rng.choice([b"mx", b"a", b"example", b"h" * 63]) for _ in range(rng.randint(1, 3))]) + b"\x00"
+            return b"\xc0\x0c"
+        qd = rng.choice([0, 1, 1, 1, 2])
+        body = b""
+        for _ in range(qd): body += b"\x02mx\x07example\x00" + b"\x00\x01\x00\x01"
+        if qd == 0: body += b""
+        nrec = rng.randint(0, 5)
+        for _ in range(nrec):
+            typ = rng.choice([1, 1, 15, 15, 12, 5, 16])
+            data = {1: bytes(rng.randrange(256) for _ in range(rng.choice([4, 4, 4, 0, 3, 6]))), 15: rng.choice([b"\x00\x0a" + (b"\xc0\x0c" if qd else b"\x00"), b"\x00", b"\x00\x05\x02mx\x00", b""]),
+                    12: rng.choice([b"\x04host\x00", b"\xc0\x0c" if qd else b"\x00", b"\x40", b""]), 5: b"\x00", 16: b"\x03txt"}[typ]
+            rdl = len(data) if rng.random() < 0.7 else rng.choice([0, 1, 3, 4, 5, len(data) + 3, 200, 65535])
+            nm = name() if qd else rng.choice([b"\x00", b"\x01a\x00"])
+            body += nm + typ.to_bytes(2, "big") + b"\x00\x01" + b"\x00\x00\x00\x3c" + rdl.to_bytes(2, "big") + data
+        an = nrec if rng.random() < 0.7 else rng.choice([0, 1, nrec + 1, nrec + 3, 40])
+        r = b"\x12\x34\x80\x00" + qd.to_bytes(2, "big") + an.to_bytes(2, "big") + b"\x00\x00\x00\x00" + body
+        k_ = rng.random()
+        if k_ < 0.25: r = r[:rng.randint(12, len(r))]          # res_query never hands back less than a header (12 bytes)
+        return r[:500]
+    dresp = [gen_response() for _ in range(400 * N)]
+    dlines, dmodel = [], []
+    for r in dresp:
+        kind = rng.choice(["ip", "ip", "ptr", "mx"])
+        if kind == "ip": dlines.append("ip %s %s" % (vlib.hx(b"mx.example"), vlib.hx(r))); dmodel.append("dns ip 1 " + vlib.hx(r))
+        elif kind == "ptr": dlines.append("ptr 1.2.3.4 %s" % vlib.hx(r)); dmodel.append("dns name 12 " + vlib.hx(r))
+        else: dlines.append("mxip %s %s" % (vlib.hx(b"mx.example"), vlib.hx(r))); dmodel.append("dns mx 15 " + vlib.hx(r))
+    real = tie("h_dns", "qmail-remote", dlines, "dns_walk") if False else None
+    try:
+        objs_, libs_ = rb.link_deps("qmail-remote")
+        hd = rb.compile_harness(os.path.join(vlib.VERIF, "harness", "h_dns.c"), os.path.join(vlib.scratch(), "h_dns_tie.san"), objs=[o for o in objs_ if o != "dns.o"], libs=libs_)
+        real = []
+        for l_ in dlines:                       # one process per case: dns.c keeps a static response buffer
+            p_ = subprocess.run([hd], input=(l_ + "\n").encode(), stdout=subprocess.PIPE, stderr=subprocess.PIPE, env=env0, timeout=60)
+            if SAN_RE.search(p_.stderr) or not p_.stdout.strip():
+                fails.append(("memory:dns_walk:sanitizer", dict(kind="input", surface="dns_walk", line=l_[:3000], stderr_tail=p_.stderr[-600:].decode("latin1")), len(l_))); real.append(None)
+            else: real.append(p_.stdout.decode().strip())
+    except vlib.HarnessBuildError as e:
+        mism.append(dict(stream="harness h_dns does not build", input="", real=str(e)[-800:], model="")); real = None
+    if real:
+        mod, _, _ = vlib.run_lines(drv, dmodel)
+        for l_, a_, m_ in zip(dlines, real, mod):
+            if a_ is None: continue
+            ck.evaluated(); ck.count("tie_dns_walk"); ck.count("tie_dns_walk_" + ("resolve_soft" if m_ == "S" else ("soft" if "S" in m_.split(";")[0] else "complete")))
+            kind = l_.split()[0]
+            if m_ == "S": exp_ = "r=-1"
+            else:
+                rs_, hi_, _ = m_.split(";")
+                if int(hi_) >= len(bytes.fromhex(l_.split()[2])):
+                    fails.append(("memory:dns_walk:model-read-outside", dict(kind="input", surface="dns_walk", line=l_[:3000], model=m_), len(l_))); continue
+                if kind == "ip": exp_ = "r=-1" if "S" in rs_ else "r=0 n=%d" % rs_.count("G")
+                elif kind == "ptr":
+                    g_, s_ = rs_.find("G"), rs_.find("S")
+                    exp_ = "r=0" if g_ >= 0 and (s_ < 0 or g_ < s_) else ("r=-1" if s_ >= 0 else "r=-2")
+                else: exp_ = "r=-1" if "S" in rs_ else ("r=0 n=0" if "G" in rs_ else "r=-2")
+            if not a_.startswith(exp_): mism.append(dict(stream="dns record walk", input=l_[:600], real=a_, model=m_ + " -> " + exp_)); vlib.log("dns mismatch %s | real %s | model %s -> %s" % (l_[:300], a_, m_, exp_))
     # netstring lengths: the model's verdict against the exit of the real qmail-qmtpd
     # ---------------------------------------------------------------- whole programs (sanitised binaries)
     def run_prog(S, argv, inp, env=None, cwd=None, preexec=None, timeout=60):
